@@ -2031,6 +2031,12 @@ func buildRequestBodyType(body, att *expr.AttributeExpr, e *expr.HTTPEndpointExp
 			if validateDef != "" {
 				validateRef = fmt.Sprintf("err = Validate%s(&body)", varname)
 			}
+		} else if refersToSelf(ut) {
+			// The client does not validate the requests it sends but the
+			// CLI inlines the validation code of the body built from the
+			// JSON flag, if the body type is recursive that code calls
+			// the validation function of the body type.
+			validateDef = codegen.ValidationCode(ut.Attribute(), ut, httpctx, true, expr.IsAlias(ut), false, "body")
 		}
 	} else {
 		// Generate validation code first because inline struct validation is removed.
@@ -2597,6 +2603,18 @@ func extractCookies(a *expr.MappedAttributeExpr, svcAtt *expr.AttributeExpr, svc
 		return nil
 	})
 	return cookies
+}
+
+// refersToSelf returns true if the attributes of ut refer to ut directly or
+// through other types.
+func refersToSelf(ut expr.UserType) bool {
+	found := false
+	collectUserTypes(ut.Attribute().Type, func(t expr.UserType) {
+		if t.ID() == ut.ID() {
+			found = true
+		}
+	})
+	return found
 }
 
 // collectUserTypes traverses the given data type recursively and calls back the
